@@ -765,8 +765,8 @@ class RefProp(Prop):
         if ref is None:
             return None
         if ref["status"] != i["status"]:
-            if i["status"] == "CRASH":
-                return None   # C09's business
+            if i["status"] in ("CRASH", "TIMEOUT"):
+                return None   # C09's business / no observation within the time bound (C14's business)
             return ("refsem_status", "reference semantics says %s (%s), implementation %s %s" % (ref["status"], ref.get("why", ""), i["status"], i.get("err", "")))
         if ref["status"] == "OK":
             if out_text(i) != ref["out"]:
@@ -1060,15 +1060,34 @@ class C09(Prop):
             raw = raw[:j] + [r.choice(["", " ", [], ["x"], [[]], [["a"], "b"]])] + raw[j:]
         return raw
 
+    @staticmethod
+    def host_limit(i):
+        """the two recorded host-limit defects (known_findings.json KF-C09-2 / KF-C09-3), identified by
+        exception type + message / call site; the model has unbounded integers and no host stack"""
+        if i["status"] != "CRASH":
+            return None
+        if i["err"] == "ValueError" and "integer string conversion" in i.get("msg", ""):
+            return "int_str_digit_limit"
+        if i["err"] == "RecursionError" and i.get("site") == "expr-recursion":
+            return "expression_recursion"
+        return None
+
     def oracle(self, c, i):
         if i["status"] == "CRASH":
+            h = self.host_limit(i)
+            if h == "int_str_digit_limit":
+                return (h, "ValueError escaped (%s): an integer of more than 4300 digits is converted to text" % i.get("site"))
+            if h == "expression_recursion":
+                return (h, "RecursionError escaped: the expression tree is deeper than the host stack allows")
             return ("crash:%s@%s" % (i["err"], i.get("site")), "%s escaped (%s): %s" % (i["err"], i.get("site"), i.get("msg", "")[:120]))
         if i["status"] == "CE" and isinstance(i.get("trace"), dict):
             return ("trace_crash:" + i["trace"]["trace_crash"], "stack_traceback() raised " + i["trace"]["trace_crash"])
         return None
 
     def ignore_disagreement(self, c, m, i):
-        # alpha_C09 = crash or not
+        # alpha_C09 = crash or not; the recorded host-limit defects are outside the model
+        if self.host_limit(i):
+            return True
         return (m["status"] == "CRASH") == (i["status"] == "CRASH")
 
 
